@@ -317,12 +317,10 @@ func parseDoc(text string, isYAML bool) (*Val, error) {
 			return nil, err
 		}
 	} else {
-		d := json.NewDecoder(strings.NewReader(text))
-		if err := d.Decode(&x); err != nil {
+		// Unmarshal, not a Decoder: a document is the whole text, and anything
+		// after a complete value makes it not a document
+		if err := json.Unmarshal([]byte(text), &x); err != nil {
 			return nil, err
-		}
-		if d.More() {
-			return nil, fmt.Errorf("trailing data")
 		}
 	}
 	return fromAny(x)
